@@ -97,6 +97,7 @@ fn main() {
                     max_steps: geti(&m, "maxsteps", 3000),
                 };
                 let mut ex = conc::Explore::new(&scn, &mut out);
+                ex.keep_bases = geti(&m, "bases", 0);
                 ex.dfs(geti(&m, "bound", 2), &opts, geti(&m, "limit", 4000));
                 let npct = geti(&m, "pct", 0);
                 if npct > 0 {
@@ -110,12 +111,34 @@ fn main() {
                         let r = conc::execute(&scn, &mut conc::Strategy::Prefix(vec![t0]), &plain, None);
                         nsolo += ex.solo_points(&r.steps, geti(&m, "budget", 20000), geti(&m, "stride", 1));
                     }
+                    // plus the (sampled) schedules the DFS went through
+                    let bases = std::mem::take(&mut ex.bases);
+                    let every = (bases.len() / geti(&m, "nbases", 12).max(1)).max(1);
+                    for b in bases.iter().step_by(every) {
+                        nsolo += ex.solo_points(b, geti(&m, "budget", 20000), geti(&m, "stride", 1));
+                    }
                 }
                 summary.push(serde_json::json!({"scn": nm, "execs": ex.execs, "distinct": ex.distinct,
                     "max_steps": ex.max_steps_seen, "solo": nsolo}));
             }
             write_out(&m, &props, &out.lines);
             println!("{}", serde_json::Value::Array(summary));
+        }
+        "crashseq" => {
+            // random single-thread programs, a crash probe before every write to the lower metadata
+            let mut out = seq::Out::new();
+            let mut rng = seq::Rng(seed ^ 0xc5a5);
+            let runs = geti(&m, "runs", 20);
+            let mut writes = 0;
+            for i in 0..runs {
+                let scn = conc::random_scenario(&mut rng, i);
+                let opts = conc::ExecOpts { keep_ops: false, crash: true, crash_every: geti(&m, "every", 1), max_steps: 100000 };
+                let mut ex = conc::Explore::new(&scn, &mut out);
+                ex.run(&mut conc::Strategy::Prefix(vec![]), &opts, vec![]);
+                writes += hook::rec_writes();
+            }
+            write_out(&m, &props, &out.lines);
+            println!("{}", serde_json::json!({"runs": runs, "writes": writes}));
         }
         _ => {
             eprintln!("usage: vharness <geo|seq|init|c11|...> key=value ...");
